@@ -5,6 +5,7 @@ to any nodes that exist at that moment — keeps the heap sound and acyclic.
 import Ajson.Proofs.CloneSound
 import Ajson.Proofs.SetContainer
 import Ajson.Proofs.SetNode
+import Ajson.Proofs.Frame
 namespace Ajson.Proofs
 open Ajson Ajson.Heap
 
@@ -17,6 +18,12 @@ inductive Step
   | setArray (n : Nat) (ids : List Nat)
   | setObject (n : Nat) (kv : List (Bytes × Nat))
   | setNode (n v : Nat)
+  | newNull (key : Bytes)
+  | newNumeric (key : Bytes) (bits : UInt64)
+  | newString (key : Bytes) (s : Bytes)
+  | newBool (key : Bytes) (b : Bool)
+  | newArray (key : Bytes)
+  | newObject (key : Bytes)
 
 def Step.names : Step → List Nat
   | .edit e => e.names
@@ -24,6 +31,7 @@ def Step.names : Step → List Nat
   | .setArray n ids => n :: ids
   | .setObject n kv => n :: kv.map (·.2)
   | .setNode n v => [n, v]
+  | .newNull _ | .newNumeric _ _ | .newString _ _ | .newBool _ _ | .newArray _ | .newObject _ => []
 
 def Step.run (h : Heap) : Step → Heap
   | .edit e => e.run h
@@ -31,6 +39,80 @@ def Step.run (h : Heap) : Step → Heap
   | .setArray n ids => (h.update (some n) (.arr ids)).1
   | .setObject n kv => (h.update (some n) (.obj kv)).1
   | .setNode n v => (h.setNode n v).1
+  | .newNull key => (h.scalarNode key .null none).1
+  | .newNumeric key b => (h.scalarNode key .numeric (some (.num b))).1
+  | .newString key s => (h.scalarNode key .string (some (.str s))).1
+  | .newBool key b => (h.scalarNode key .bool (some (.bool b))).1
+  | .newArray key => (h.arrayNode key none).1
+  | .newObject key => (h.objectNode key none).1
+
+/-- a record the constructors allocate: detached, dirty, childless -/
+def FreshRec (r : NodeRec) : Prop :=
+  r.parent = none ∧ r.dirty = true ∧
+    ((r.children = none ∧ r.type.isContainer = false) ∨ (r.children = some [] ∧ r.type.isContainer = true))
+
+/-- allocating a fresh record keeps the heap sound and acyclic -/
+theorem struct_alloc_fresh {h : Heap} (hs : Struct h) (ha : Acyc h) (r : NodeRec) (fr : FreshRec r) :
+    Struct (h.alloc r).1 ∧ Acyc (h.alloc r).1 ∧ h.size ≤ (h.alloc r).1.size := by
+  obtain ⟨rp, rd, rc⟩ := fr
+  have old : ∀ m : Nat, m < h.size → (h.alloc r).1.get m = h.get m := fun m hm => get_alloc_old h r m hm
+  have cmOld : ∀ m : Nat, m < h.size → (h.alloc r).1.childMap m = h.childMap m := fun m hm => by unfold childMap; rw [old m hm]
+  have new : (h.alloc r).1.get h.size = r := by rw [get_alloc]; simp
+  have cmNew : (h.alloc r).1.childMap h.size = [] := by
+    unfold childMap; rw [new]
+    rcases rc with ⟨c, _⟩ | ⟨c, _⟩ <;> rw [c] <;> rfl
+  refine ⟨fun p hp => ?_, ?_, by simp⟩
+  · simp only [size_alloc] at hp
+    by_cases hlt : p < h.size
+    · have ok := hs p hlt
+      have kb : ∀ kc ∈ h.childMap p, (kc.2 : Nat) < h.size := fun kc hkc => (ok.kids kc hkc).1
+      refine ⟨fun kc hkc => ?_, ?_, ?_, ?_, fun q hq => ?_, fun hd => ?_⟩
+      · rw [cmOld p hlt] at hkc
+        obtain ⟨a, b, c, d⟩ := ok.kids kc hkc
+        refine ⟨?_, b, ?_, ?_⟩
+        · simp only [size_alloc]; exact Nat.lt_succ_of_lt a
+        · rw [old _ a]; exact c
+        · unfold PosOK at d ⊢
+          rw [old p hlt, old _ a]; exact d
+      · rw [cmOld p hlt]; exact ok.nodup
+      · rw [cmOld p hlt, old p hlt]; exact ok.dense
+      · rw [cmOld p hlt, old p hlt]; exact ok.shape
+      · rw [old p hlt] at hq
+        obtain ⟨a, b, c, d⟩ := ok.par q hq
+        refine ⟨?_, ?_, ?_, ?_⟩
+        · simp only [size_alloc]; exact Nat.lt_succ_of_lt a
+        · rw [old q a]; exact b
+        · rw [cmOld q a]; exact c
+        · rw [old p hlt, old q a]; exact d
+      · rw [old p hlt] at hd
+        obtain ⟨a, b, c⟩ := ok.clean hd
+        refine ⟨?_, ?_, fun kc hkc => ?_⟩
+        · rw [old p hlt]; exact a
+        · rw [old p hlt]; exact b
+        · rw [cmOld p hlt] at hkc
+          rw [old _ (kb kc hkc)]; exact c kc hkc
+    · have hp' : p = h.size := Nat.le_antisymm (Nat.le_of_lt_succ hp) (Nat.le_of_not_lt hlt)
+      subst hp'
+      refine ⟨fun kc hkc => ?_, ?_, fun _ i hi => ?_, ?_, fun q hq => ?_, fun hd => ?_⟩
+      · rw [cmNew] at hkc; cases hkc
+      · rw [cmNew]; exact List.nodup_nil
+      · rw [cmNew] at hi; cases hi
+      · rw [new, cmNew]
+        rcases rc with ⟨c, t⟩ | ⟨c, t⟩
+        · simp [t]
+        · simp [t, c]
+      · rw [new, rp] at hq; cases hq
+      · rw [new, rd] at hd; cases hd
+  · intro n k
+    rw [up_congr (h := h) (h' := (h.alloc r).1) (fun x => by
+      rw [get_alloc]; split
+      · rename_i hx; rw [hx, rp]
+        have : h.get h.size = default := by
+          unfold Heap.get Heap.size
+          rw [List.getD_eq_getElem?_getD, List.getElem?_eq_none (Nat.le_refl _)]; rfl
+        rw [this]; rfl
+      · rfl) n (k + 1)]
+    exact ha n k
 
 /-- every step names nodes that exist when it is made — including the nodes earlier clones have made -/
 def ValidSteps : Heap → List Step → Prop
@@ -55,6 +137,12 @@ theorem Step.sound {h : Heap} (hs : Struct h) (ha : Acyc h) (s : Step) (hnames :
     exact ⟨a, b, Nat.le_of_eq c.symm⟩
   | setNode n v =>
     exact setNode_sound hs ha n v (hnames n (by simp [Step.names])) (hnames v (by simp [Step.names]))
+  | newNull key => exact struct_alloc_fresh hs ha _ ⟨rfl, rfl, Or.inl ⟨rfl, rfl⟩⟩
+  | newNumeric key b => exact struct_alloc_fresh hs ha _ ⟨rfl, rfl, Or.inl ⟨rfl, rfl⟩⟩
+  | newString key s => exact struct_alloc_fresh hs ha _ ⟨rfl, rfl, Or.inl ⟨rfl, rfl⟩⟩
+  | newBool key b => exact struct_alloc_fresh hs ha _ ⟨rfl, rfl, Or.inl ⟨rfl, rfl⟩⟩
+  | newArray key => exact struct_alloc_fresh hs ha _ ⟨rfl, rfl, Or.inr ⟨rfl, rfl⟩⟩
+  | newObject key => exact struct_alloc_fresh hs ha _ ⟨rfl, rfl, Or.inr ⟨rfl, rfl⟩⟩
 
 /-- **any history of edits, clones, SetArray / SetObject and SetNode**, each step on any nodes that exist at that moment (the copies included), leaves a sound
 acyclic heap -/
